@@ -221,6 +221,9 @@ func main() {
 	addChain(jcase{Kind: "chain", G: g2, Paints: three, Ops: []jop{
 		{T: "merge", Target: 50, Merged: []uint64{2, 3}}, {T: "merge", Target: 60, Merged: []uint64{1, 50}}, {T: "merge", Target: 7, Merged: []uint64{99}},
 		{T: "replace", Target: 60, New: 0}, {T: "replacemany", Map: [][2]uint64{{0, 5}, {5, 6}}}}})
+	// the merged label owns the first and the last entry of SBIndices
+	addChain(jcase{Kind: "chain", G: g2, Paints: []blk.Paint{blk.Fill(2), blk.Box([6]int{1, 0, 0, 16, 16, 16}, 1), blk.Box([6]int{15, 15, 15, 16, 16, 16}, 2), blk.Box([6]int{14, 15, 15, 15, 16, 16}, 3)},
+		Ops: []jop{{T: "merge", Target: 1, Merged: []uint64{2}}, {T: "replace", Target: 1, New: 6}}})
 	// solid block through every table-level operation
 	addChain(jcase{Kind: "chain", G: g2, Paints: []blk.Paint{blk.Fill(4)}, Ops: []jop{
 		{T: "replace", Target: 4, New: 8}, {T: "merge", Target: 2, Merged: []uint64{8}}, {T: "replacemany", Map: [][2]uint64{{2, 3}}},
@@ -251,9 +254,13 @@ func main() {
 		if rng.Bool() {
 			ps = append(ps, blk.Box([6]int{8, 8, 8, 16, 16, 16}, pal[rng.Intn(npal)])) // a one-label sub-block
 		}
+		first := blk.Expand(16, 16, 16, ps)[0] // the label under the very first sub-block slot
 		pickLabel := func() uint64 {
 			if rng.Chance(0.15) {
 				return uint64(100 + rng.Intn(5)) // absent
+			}
+			if rng.Chance(0.25) {
+				return first
 			}
 			return pal[rng.Intn(npal)]
 		}
